@@ -69,7 +69,7 @@ def execute(case):
     have = {o[1] for o in obs}
     for op in case["ops"]:
         kind = op[0]
-        if kind in ("solve", "solve_clone", "reuse", "new"):
+        if kind in ("solve", "solve_clone", "reuse", "new", "split_after_solver", "narrow_after_solver"):
             pi, ci = op[1] % len(problems), op[2] % len(configs)
             pc, cfg = problems[pi], configs[ci]
             if key(pi, ci, ["find_all"]) not in have:
@@ -120,6 +120,32 @@ def execute(case):
             if "cons:" + cfg["cons"] in heur_clones:
                 over["consistency_alg_idx"] = heur_clones["cons:" + cfg["cons"]]
             obs.append(["solve_clone", key(pi, ci, how), _solve(build_with_clones(pc, clones), pc, cfg, how, over)])
+        elif kind == "split_after_solver":
+            var, k = op[3] % len(pc["idx"]), 1 + op[4] % 4
+            how = ["find_all"]
+            # reference: split() of a problem object that no solver has ever seen
+            fresh = [_solve(sp, pc, cfg, how)["seq"] for sp in nx.build_problem(pc).split(k, var)]
+            obs.append(["split-fresh", key(pi, ci, ["split", var, k]), {"seq": fresh, "stats": {}}])
+            pb = nx.build_problem(pc)
+            first = nx.make_solver(pb, cfg, nx.needed_height(pc, cfg))
+            it = first.solve()
+            for _ in range(op[5] % 3):
+                next(it, None)
+            used = [_solve(sp, pc, cfg, how)["seq"] for sp in pb.split(k, var)]
+            obs.append(["solve", key(pi, ci, ["split", var, k]), {"seq": used, "stats": {}}])
+        elif kind == "narrow_after_solver":
+            d = op[3] % len(pc["shr"])
+            lo, hi = pc["shr"][d]
+            if lo == hi:
+                continue
+            new_dom = [lo + 1, hi] if op[4] % 2 else [lo, hi - 1]
+            pc2 = dict(pc, shr=[list(x) for x in pc["shr"]])
+            pc2["shr"][d] = list(new_dom)
+            obs.append(["narrow-fresh", key(pi, ci, ["narrow", d, new_dom]), _solve(nx.build_problem(pc2), pc2, cfg, ["find_all"])])
+            pb = nx.build_problem(pc)
+            nx.make_solver(pb, cfg, nx.needed_height(pc, cfg))
+            pb.shr_domains_lst[d] = list(new_dom)  # the way the shipped quasigroup / tournament models set their domains
+            obs.append(["solve", key(pi, ci, ["narrow", d, new_dom]), _solve(pb, pc2, cfg, ["find_all"])])
         elif kind == "reuse":
             cj = op[3] % len(configs)
             if key(pi, cj, ["find_all"]) not in have:
@@ -140,8 +166,8 @@ def history_verdict(obs):
     """(a): every observation must agree with the baseline of its key."""
     base = {}
     for label, k, v in obs:
-        if label == "baseline":
-            base[k] = v
+        if label in ("baseline", "split-fresh", "narrow-fresh"):
+            base.setdefault(k, v)
     for label, k, v in obs:
         if label in ("solve", "solve_clone", "reuse"):
             if k not in base:
@@ -176,7 +202,7 @@ def check(case):
     labels = {o[0] for o in obs}
     for l in labels:
         tags.append("obs:" + l)
-    abandoned = any(op[0] in ("drop", "new") for op in case["ops"])
+    abandoned = any(op[0] in ("drop", "new", "reuse", "split_after_solver", "narrow_after_solver") for op in case["ops"])
     registered = any(op[0] == "register" for op in case["ops"])
     nt = abandoned and registered and any(o[0] in ("solve", "solve_clone", "reuse") for o in obs)
     bad = history_verdict(obs)
@@ -206,6 +232,8 @@ def c15_case(draw, tier):
         st.tuples(st.just("register"), st.sampled_from(regs)),
         st.tuples(st.just("solve_clone"), st.integers(0, 5), st.integers(0, 5)),
         st.tuples(st.just("reuse"), st.integers(0, 5), st.integers(0, 5), st.integers(0, 5), st.integers(0, 5)),
+        st.tuples(st.just("split_after_solver"), st.integers(0, 5), st.integers(0, 5), st.integers(0, 7), st.integers(0, 5), st.integers(0, 5)),
+        st.tuples(st.just("narrow_after_solver"), st.integers(0, 5), st.integers(0, 5), st.integers(0, 7), st.integers(0, 1)),
     )
     ops = [list(o) for o in draw(st.lists(op, min_size=2, max_size=14 if not big else 24))]
     return {"problems": problems, "configs": configs, "ops": ops}
